@@ -34,8 +34,8 @@ CFG = {
     text="Theorems on the replica model (Model/Sync.lean: store + incrementally maintained tree; pull = hash both, serialise, diff, fetch ranges, merge, upsert): for replicas with different content a pull in at least one direction changes the receiver (join and peer-wins); n >= number of disagreeing keys two-way rounds end with equal stores and equal root hashes; under join the result is the pointwise join; converged replicas exchange nothing. The replica model itself is tied to the real code by the srand stream (schedules executed on real trees and on the model, ranges / fetched keys / stores / root hashes compared).",
     assumptions=[A_TOTAL, A_LVL, "NoCollisions: no digest collision among page pre-images during the run", "values are identified with their digests; merge = max on a linear order, or peer-wins", A_MODEL]),
  "C06": dict(streams=S("ssmall","srand","drand"), level="proof",
-    theorems=[P+"C06_refine", P+"C06_safe", P+"C06_live"],
-    text="PARTIAL in scope (join merge; atomic pulls), full in the quantifiers it covers: for ANY number of replicas and ANY schedule of writes and pulls (theorem, unbounded): no panic and every replica's tree mirrors its store at every step whatever its cache state (refinement); under join nothing is lost or invented (safety); after writes stop, n*|ops|+1 sweeps pulling between all ordered pairs in any order bring every replica to the join of everything written with equal root hashes (liveness). Peer-wins with >= 3 replicas admits fair non-converging schedules at the store level (noted in the file), two-replica peer-wins is C05. Stale in-flight snapshots are exercised by the srand stream only.",
+    theorems=[P+"C06_refine", P+"C06_safe", P+"C06_live", P+"C06_peerWins_three_replicas_counterexample"],
+    text="PARTIAL in scope (join merge; atomic pulls), full in the quantifiers it covers: for ANY number of replicas and ANY schedule of writes and pulls (theorem, unbounded): no panic and every replica's tree mirrors its store at every step whatever its cache state (refinement); under join nothing is lost or invented (safety); after writes stop, n*|ops|+1 sweeps pulling between all ordered pairs in any order bring every replica to the join of everything written with equal root hashes (liveness). Peer-wins with >= 3 replicas admits a fair schedule that never converges: proved as a theorem on the model (C06_peerWins_three_replicas_counterexample), so that clause cannot hold for that merge; two-replica peer-wins is C05. Stale in-flight snapshots are exercised by the srand stream only.",
     assumptions=[A_TOTAL, A_LVL, "NoCollisions", "join (max) merge; pulls atomic; values identified with their digests", A_MODEL]),
  "C07": dict(streams=S("dsmall","drand"), level="proof",
     theorems=[P+"C07", P+"C07_empty_local"],
